@@ -1916,6 +1916,11 @@ impl<'a> Tr<'a> {
             Expr::Paren(p) => &*p.expr,
             other => other,
         };
+        if self.w2.active {
+            if let Some(r) = self.w2_try(inner)? {
+                return Ok(r);
+            }
+        }
         match inner {
             Expr::MethodCall(m) => {
                 let name = m.method.to_string();
@@ -2354,6 +2359,9 @@ impl<'a> Tr<'a> {
 
     fn stmt(&mut self, s: &Stmt) -> R<()> {
         if self.mode == Mode::S && self.s_stmt(s)? {
+            return Ok(());
+        }
+        if self.w2.active && self.w2_stmt(s)? {
             return Ok(());
         }
         match s {
@@ -3915,6 +3923,7 @@ fn main() {
                     }
                     "sfn" => t6w::translate_sfn(&reg, &failed, &all, name),
                     "tfn" => t6w2::translate_tfn(&reg, &failed, &all, name),
+                    "afn" => t6w2::translate_afn(&reg, &failed, &all, name),
                     "struct" | "sstruct" => {
                         for it in &all {
                             if let Item::Struct(st) = it {
